@@ -39,7 +39,7 @@ m = {
         {'name': 'rtc', 'path': 'rtc/', 'serves_properties': sorted(PROPS),
          'kind_free_text': 'run-time side under /venv/bin/python: bounded stand-ins, replay, library-contract conformance'}],
     'checks': checks,
-    'notes': 'see DESIGN.md; known_findings.json lists the fourteen repaired defects (fix: commits in /repo)',
+    'notes': 'see DESIGN.md; known_findings.json lists the fifteen repaired defects (fix: commits in /repo)',
     'not_applicable': [{'property_id': p['id'], 'reason': NA.get(p['id'], 'check not built yet (framework under construction, see DESIGN.md section 8)')}
                        for p in props if p['id'] not in PROPS],
 }
